@@ -77,7 +77,7 @@ BUILT = {
    'Trusts TLC, tv and the independent decoders. Map-rooted, null-free, $-free trees; JSON/YAML tool output.',
    'TLA+ contracts (BklTools!IntersectOK, DiffOK) evaluated by TLC on real tool outputs + bounded universe (MC_Tools) + real migration workflow', '6 C16'),
  'C17': ('model_checking',
-   'bklr is specified exactly: its output is Skeleton(merged layers) (declarative: the $required positions and the containers leading to them). TLC asserts on all 2^8 placements (among them below a non-directive "$Up" key, markers two levels below a list entry and in a list nested in a list) x 7 upper layers that the transcribed algorithm equals the declarative Skeleton, that the skeleton contains only markers and containers, is idempotent, and is non-empty exactly when evaluation fails; every case is run through the real bklr (output, run on its own output) and bkl (required-field error). Random trees with $required at random map values and list entries, 1-3 layers in mixed formats, are run the same way and judged by TLC.',
+   'bklr is specified exactly: its output is Skeleton(merged layers) (declarative: the $required positions and the containers leading to them). TLC asserts on all 2^8 placements (among them below a non-directive "$Up" key, markers two levels below a list entry and in a list nested in a list) x 9 upper layers that the transcribed algorithm equals the declarative Skeleton, that the skeleton contains only markers and containers, is idempotent, and is non-empty exactly when evaluation fails; every case is run through the real bklr (output, run on its own output) and bkl (required-field error). Random trees with $required at random map values and list entries, 1-3 layers in mixed formats, are run the same way and judged by TLC.',
    'Trusts TLC, tv and the independent decoders; inputs carry no directives other than $required (as the property states for the agreement with bkl).',
    'TLA+ exact specification (BklTools!Skeleton) + TLC bounded placements with replay on bklr and bkl + trace validation', '6 C17'),
 
